@@ -193,6 +193,11 @@ impl Profile {
             "C03" | "C04" | "C13" => {
                 p.weights = [30, 20, 3, 5, 3, 45, 5];
             }
+            "C11" => {
+                p.weights = [30, 15, 3, 3, 3, 45, 5];
+                p.errors = true;
+                p.p256 = 5;
+            }
             "C01" | "C15" => {
                 p.weights = [30, 20, 10, 5, 5, 5, 10];
                 p.max_events = 9;
@@ -533,7 +538,9 @@ pub struct Monitors {
     pub c04: bool,
     pub c07: bool,
     pub c08: bool,
+    pub c11: bool,
     pub c12: bool,
+    pub c13: bool,
     pub c15: bool,
     pub c16: bool,
     pub hash_keys: usize,
@@ -558,6 +565,11 @@ impl Monitors {
             "C12" => m.c12 = true,
             "C15" => m.c15 = true,
             "C16" => m.c16 = true,
+            "C11" => {
+                m.c11 = true;
+                m.hash_keys = 8;
+            }
+            "C13" => m.c13 = true,
             _ => {}
         }
         m
@@ -1891,6 +1903,12 @@ impl<'a> Run<'a> {
         }
         if self.mon.c03 {
             self.check_c03(&biscuit, token, verifier, &spec);
+        }
+        if self.mon.c11 {
+            self.check_c11(&biscuit, token, verifier, &spec);
+        }
+        if self.mon.c13 {
+            self.check_c13(&biscuit, token, verifier, &spec);
         }
         if !self.mon.c04 && !self.mon.c03 {
             let e = libeval::evaluate(Some(&biscuit), &spec.authorizer, &[], self.scn.hash_key, spec.limits, false);
